@@ -169,6 +169,37 @@ func rangeCollectionOfHeader(b *ssa.BasicBlock) ssa.Value {
 	if !ok || calleeName(ln) != "builtin:len" {
 		return nil
 	}
+	// classic index loop: for i := 0; i < len(X); i++ (the counter starts at 0, advances by one on every back edge,
+	// and X is a slice or string value, whose length cannot change)
+	if phi, ok := cmp.X.(*ssa.Phi); ok && phi.Block() == b {
+		good := true
+		for i, e := range phi.Edges {
+			if b.Dominates(b.Preds[i]) {
+				inc, ok := e.(*ssa.BinOp)
+				k, isC := int64(0), false
+				if ok {
+					k, isC = constInt(inc.Y)
+				}
+				if !ok || inc.Op != token.ADD || inc.X != ssa.Value(phi) || !isC || k != 1 {
+					good = false
+				}
+			} else if k, isC := constInt(e); !isC || k != 0 {
+				good = false
+			}
+		}
+		switch ln.Call.Args[0].Type().Underlying().(type) {
+		case *types.Slice, *types.Basic:
+		default:
+			good = false
+		}
+		if in, isIn := ln.Call.Args[0].(ssa.Instruction); isIn && naturalLoop(b)[in.Block()] {
+			good = false
+		}
+		if good {
+			return ln.Call.Args[0]
+		}
+		return nil
+	}
 	inc, ok := cmp.X.(*ssa.BinOp)
 	if !ok || inc.Op != token.ADD {
 		return nil
